@@ -15,6 +15,7 @@ FU = 'rnacos::naming::filter::InstanceFilterUtils::'
 def run(ck, fb):
     _run0(ck, fb)
     r12h(ck, fb)
+    ck.borrow('rules.c13', {'R13b': 'R12i'}, 'a live gRPC or persistent registration must not be expired by a stale heartbeat entry queued for the same address')
 
 
 def _run0(ck, fb):
